@@ -15,7 +15,10 @@ RULE = ("Each case builds an event stream from a spec-level description: 1-6 eve
         "is delivered to hio's real Respondent as the body of a text/event-stream response, close-delimited or chunked with "
         "seeded chunk boundaries, in a seeded read fragmentation (cuts between CR and LF forced often), parse() after every "
         "read, close() at the end. Oracle: respondent.events (id, name, data in order), last event id and retry equal the "
-        "reference dispatch of the logical line list (WHATWG algorithm, models/sse.py). Non-trivial: >= 2 events, >= 2 "
+        "reference dispatch of the logical line list (WHATWG algorithm, models/sse.py). One case in twelve runs the whole http Client, "
+        "set up to reconnect on its own, over the fake kernel (one service pass per simulated millisecond, connects take a second pass): a "
+        "subscription of 2-3 such streams, each cut by the server (FIN) once the client's retry period is over; the client must come back "
+        "(when it has a last event id to resume from), carry that id as Last-Event-ID, and yield the events of all streams in order. Non-trivial: >= 2 events, >= 2 "
         "different terminators in the stream and >= 1 read boundary inside a CRLF or right after a CR. Distinct: digest of "
         "(stream bytes, framing, cuts).")
 COMPONENTS = dict(real=["hio.core.http.httping.EventSource.parseEvents/parseLine/parseChunk", "hio.core.http.clienting.Respondent.parseHead/parseBody"],
@@ -24,7 +27,7 @@ ASSUMPTIONS = ["outside the generated domain (spec and statement silent or ambig
                "non-digit retry, a stream that ends in the middle of an event",
                "an absent id is compared as '' and an absent event name as ''"]
 PROBES = ["cr_only_terminators", "cut_between_cr_and_lf", "cut_right_after_cr", "chunked_delivery", "multi_line_data", "comment_lines",
-          "id_persists_across_events", "retry_set", "block_without_data"]
+          "id_persists_across_events", "retry_set", "block_without_data", "client_level_reconnect", "subscription_without_id_not_resumed"]
 BOUNDS = dict(quick=dict(events=6), thorough=dict(events=10))
 TIERS = dict(quick=dict(cases=100000, wall=60.0), thorough=dict(cases=4000000, wall=420.0))
 SIM_TIME_UNIT = "reads"
@@ -106,8 +109,142 @@ def _dataless_block(lines):
     return False
 
 
+def client_case(tape, tier, res):
+    """the whole http Client, set up to reconnect on its own, over the fake kernel: an event stream that the server cuts (FIN
+    after everything it had to say went out) one or two times; the client comes back when its retry period is over, asks again
+    (with the last event id it saw) and goes on yielding the events of the resumed stream"""
+    import re
+    from .. import netlab, rawpeer
+    nstreams = 2 + tape.draw("nstreams", 2)
+    streams = []
+    for j in range(nstreams):
+        lines, stream, _terms = gen_stream(tape, 3)
+        lines = [ln for ln in lines]
+        streams.append((lines, stream))
+    # the server cuts a stream only after the client's current retry period (100 ms unless a stream said otherwise) is over: a
+    # second outage inside the retry period is DESIGN 6.4 (the resumed stream is lost on the unchanged tree)
+    holds = []
+    r_ms = 100
+    for j in range(nstreams):
+        rv = sse.dispatch(streams[j][0])[2]
+        holds.append((10 if j == 0 else r_ms + 20) + tape.pick("hold_before_cut", [0, 1, 5, 50]))
+        if rv is not None:
+            r_ms = rv
+    tyme = [0.0]
+    raised = []
+    heads = []
+    # (every connect takes at least one more service pass - EINPROGRESS first - as non-blocking connects do; a connect that
+    # completes in the very pass of the reopen is DESIGN 6.4)
+    with netlab.Lab(tape, res, wirelog=False, rates=dict(short=tape.pick("r_short", [0, 4, 10]), inprogress=16)) as lab:
+        net = lab.net
+        net.fresh_ports = True
+        srv = rawpeer.RawServer(net, lab.port)
+        net.current_owner = "client0"
+        client = hclienting.Client(hostname="127.0.0.1", port=lab.port, tymth=lambda: tyme[0], reconnectable=True, tymeout=0.004)
+        client.reopen()
+        net.current_owner = None
+        client.request(method="GET", path="/stream")
+        # one service pass per simulated millisecond: the shortest retry period a stream may set here (5 ms) is longer than a
+        # connect takes (two passes), as any usable retry period is
+
+        def behave(c):
+            st = c["state"]
+            while b"\r\n\r\n" in c["rx"] and len(heads) < nstreams:
+                i = c["rx"].index(b"\r\n\r\n")
+                heads.append(bytes(c["rx"][:i + 4]))
+                del c["rx"][:i + 4]
+                j = len(heads) - 1
+                data = b"HTTP/1.1 200 OK\r\nContent-Type: text/event-stream\r\nCache-Control: no-cache\r\n\r\n" + streams[j][1]
+                cuts = sorted(set(1 + tape.draw("frag_at", max(1, len(data) - 1)) for _ in range(tape.draw("nfrag", 4)))) if len(data) > 1 else []
+                b = [0] + cuts + [len(data)]
+                st["queue"] = [data[b[k]:b[k + 1]] for k in range(len(b) - 1)]
+                st["cut"] = j < nstreams - 1
+                st["hold"] = holds[j]
+            q = st.get("queue")
+            if q and not c["out"]:
+                c["out"].extend(q.pop(0))
+            if q is not None and not q and not c["out"] and st.get("cut"):
+                if st["hold"] > 0:
+                    st["hold"] -= 1
+                else:
+                    c["fin"] = True
+                    st["cut"] = False
+                    res.faults["event_stream_cut_by_server"] += 1
+        want = []
+        for lines, _s in streams:
+            want += sse.dispatch(lines)[0]
+        for step in range(400 + 1200 * nstreams):
+            res.steps += 1
+            tyme[0] += 0.001
+            net.current_owner = "client0"
+            try:
+                client.service()
+            except Exception as ex:
+                raised.append("%s: %s" % (type(ex).__name__, str(ex)[:120]))
+                net.current_owner = None
+                break
+            net.current_owner = None
+            srv.step(behave)
+            net.step()
+            if len(heads) == nstreams and len(client.events) >= len(want) and step > 20:
+                break
+        got = [dict(id=e["id"] if e["id"] is not None else "", name=e["name"], data=e["data"]) for e in client.events]
+        events = list(net.events)
+    res.comparisons = len(want) + nstreams
+    res.sim_time = tyme[0]
+    res.scenario = lambda: dict(mode="client", streams=[ln for ln, _s in streams], holds=holds, raised=raised,
+                                request_heads=[h.decode("latin1") for h in heads])
+    res.scen_digest = digest(dict(m="client", s=[s.decode("latin1") for _l, s in streams], h=holds))
+    res.event_digest = digest(dict(g=got, r=raised, e=[list(map(str, e)) for e in events]))
+    res.probes["client_level_reconnect"] += 1
+    if raised:
+        res.violate("sse-raised", "Client.service() raised %s" % raised[0])
+        return res
+    # hio resumes a subscription only when it has a last event id to resume from (Client.service): after a cut stream that
+    # (with the ones before it) never set an id nothing more is expected
+    expect = 1
+    seen_id = False
+    for j in range(nstreams - 1):
+        seen_id = seen_id or any(ln.partition(":")[0] == "id" for ln in streams[j][0])
+        if not seen_id:
+            break
+        expect += 1
+    if expect < nstreams:
+        res.probes["subscription_without_id_not_resumed"] += 1
+        nstreams = expect
+        streams = streams[:expect]
+        want = []
+        for lines, _s in streams:
+            want += sse.dispatch(lines)[0]
+        got = got[:len(want)] if len(heads) <= expect else got
+    if len(heads) < nstreams:
+        res.violate("sse-client-did-not-come-back", "the server cut the event stream %d time(s); the client asked %d time(s) in all within "
+                    "%d service rounds of 1 ms (retry periods are 5 to 1000 ms)" % (nstreams - 1, len(heads), res.steps))
+        return res
+    # what each request carried as Last-Event-ID: the last id seen in the streams before it
+    last = None
+    for j in range(nstreams):
+        m = re.search(rb"(?im)^last-event-id: *(.*?)\r?$", heads[j])
+        carried = m.group(1).decode("utf-8", "replace") if m else None
+        if carried != last and not (last == "" and carried is None):
+            res.violate("sse-last-event-id", "request %d carried Last-Event-ID %r, the last id the streams before it set is %r" % (j, carried, last))
+            return res
+        ids = [ln.partition(":")[2] for ln in streams[j][0] if ln.partition(":")[0] == "id" and "\x00" not in ln]
+        if ids:
+            v = ids[-1]
+            last = v[1:] if v.startswith(" ") else v
+    if got != want:
+        k = next((i for i in range(min(len(got), len(want))) if got[i] != want[i]), min(len(got), len(want)))
+        res.violate("sse-events", "across %d stream(s) of one subscription, event #%d: client yielded %r, the streams dispatch %r (%d vs %d events)" % (
+            nstreams, k, got[k] if k < len(got) else None, want[k] if k < len(want) else None, len(got), len(want)))
+    res.nontrivial = len(want) >= 2
+    return res
+
+
 def run_case(tape, tier):
     res = Result()
+    if tape.flag("client_level", 1, 12):
+        return client_case(tape, tier, res)
     maxev = 6 if tier == "quick" else 10
     lines, stream, terms = gen_stream(tape, maxev)
     chunked = tape.flag("chunked", 1, 2)
